@@ -154,6 +154,10 @@ impl CycleRegister {
     fn cycle_index(&mut self, name: &str, max: usize) -> usize {
         let i = self.cycles.entry(name.to_owned()).or_insert(0);
         let j = *i;
+        if max == 0 {
+            // a cycle group without values: the caller reports the index as out of bounds
+            return j;
+        }
         *i = (*i + 1) % max;
         j
     }
